@@ -34,7 +34,9 @@ def obs (ids : List Nat) (r : Option Err) : String :=
   | none => "nil"
   | some e =>
     let isBits := String.join (ids.map (fun t => bit (e.is t)))
-    let asS := joinSep "," ([0, 1, 2].map (fun ty => match e.as ty with | none => "-" | some id => toString id))
+    -- the fourth target is `*ers.Error`: the harness builds the leaves with id % 3 = 0 as ers.Error constants
+    let asS := joinSep "," (([0, 1, 2].map (fun ty => match e.as ty with | none => "-" | some id => toString id))
+      ++ [match e.asLeaf (fun id => id % 3 == 0 || id == idRecoveredPanic || id == idInvariant) with | none => "-" | some id => toString id])
     let unw := joinSep "," (e.unwind.map Err.label)
     let len := match e with | .stack cs => toString cs.toList.length | _ => "-"
     s!"res={e.label} is={isBits} as={asS} unwind=[{unw}] len={len}"
